@@ -960,6 +960,13 @@ def corpus_cases(rng, limit=None):
 # declarations that lack a name, a type or an operand, names that are not one token, widths that overflow: the early exits of
 # the indexer (each program reaches several; found unvisited by the owners' streams in the coverage study)
 ODD = [
+    # hierarchies with a shared base reached along several paths, the wanted class behind an earlier parent (llvm-tblgen rejects a
+    # class inherited twice; the server accepts it, so these are not well-formed programs - what is compared is model and code)
+    'class Base {} class Reg {} class GPR : Reg {} class Sched : Base {} class Enc : Base {}\nclass Operand { Reg reg; list<Reg> regs = []; }\n'
+    'def R0 : GPR, Sched, Enc; def R1 : Sched, Enc, GPR; def Op0 : Operand { let reg = R0; } def Op1 : Operand { let reg = R1; let regs = [R0, R1]; }\n'
+    'class Both : Sched, Enc; def R2 : GPR, Both; multiclass M { def _op : Operand { let reg = R2; } } defm X : M;\n'
+    'class Holder<Reg r> { Reg held = r; } def H : Holder<R0> { Reg other = R2; list<Base> bs = [R0, R1, R2]; Base b = !if(1, R0, R2); }\n',
+    'class A; class B : A; class C : A; class D : B, C; class E : C, B; class F : D, E, A;\ndef d : D; def e : E; def f : F; def u { A a = f; B b = d; C c = e; list<A> l = [d, e, f]; D x = !if(1, d, f); }\n',
     'class ;\ndefset int = {}\ndefvar = 1;\nforeach = [1] in def f1;\nmulticlass { def a; }\nclass T<int>;\nmulticlass M { def a; }\ndefm x : ;\nclass R { int f; let = 1; int g = f.; }\n',
     'multiclass M { def a; }\ndefm x : M, ;\nmulticlass N { defm y : M, ; }\nclass C<int x>;\ndefm dm : M, C<1 = 2>;\ndef d : ;\n',
     'class A { field 1 x; field int y; list<1> l; bits<> b; }\ndefset 1 s = {}\nclass B<1 x>;\n',
